@@ -128,7 +128,9 @@ class ExprMixin:
         r = self.prog.resolve(mod.name, name) if name in mod.bindings else None
         v: V
         if r is None and name not in mod.bindings:
-            if hasattr(__import__("builtins"), name):
+            if name == "Ellipsis":
+                v = ELL                       # the builtin name of `...`
+            elif hasattr(__import__("builtins"), name):
                 v = Ext("builtins." + name)
             else:
                 v = Term("unresolved", (name,), node=node)
@@ -471,7 +473,7 @@ class ExprMixin:
             if isinstance(y, Const) and y.value is None:
                 if isinstance(x, Const):
                     return x.value is None
-                if isinstance(x, (ListV, DictV, TupleV, SetV, StrV, SchemaV, Inst, PropsV, ClassV, FuncV)):
+                if isinstance(x, (ListV, DictV, TupleV, SetV, StrV, SchemaV, Inst, PropsV, ClassV, FuncV, ExcV, ModV)):
                     return False
                 if isinstance(x, Sym) and x.kind not in (None, "NoneType"):
                     return False
